@@ -54,6 +54,12 @@ EXPLICIT = [
     ["D", [[["f", "nan"], ["i", "1"]], [["f", "nan"], ["i", "2"]]]], ["D", [[["f", "nan"], ["i", "1"]], [["f", "nan"], ["i", "2"]], [["f", "nan"], ["i", "3"]], [["s", "k"], ["i", "0"]]]],
     ["D", [[["T", [["f", "nan"], ["i", "0"]]], ["s", "p"]], [["T", [["f", "nan"], ["i", "0"]]], ["s", "q"]]]],
     ["L", [["D", [[["s", "k"], ["D", [[["f", "nan"], ["i", "1"]], [["f", "nan"], ["i", "2"]]]]]]], ["i", "3"]]],
+    # members that form a chain a < b < c in which a and c cannot be compared ((1+0j) == 1, but (1+0j) < 2 raises): whether sorting
+    # them raises depends on the order they are met in (F45; found by the thorough sweep with seed 5, minimised)
+    ["F", [["T", []], ["T", [["T", [["i", "2"], ["y", "61"], ["f", "2.0"], ["i", "-2"]]], ["i", "2"]]], ["T", [["T", [["c", "1.0", "0.0"]]], ["i", "1"]]],
+           ["T", [["T", [["i", "1"], ["n"], ["s", ""], ["i", "-2"]]], ["T", []]]]]],
+    ["S", [["T", [["c", "1.0", "0.0"]]], ["T", [["i", "1"], ["i", "0"]]], ["T", [["i", "2"]]]]],
+    ["D", [[["T", [["c", "1.0", "0.0"]]], ["s", "v"]], [["T", [["i", "1"], ["i", "0"]]], ["s", "v"]], [["T", [["i", "2"]]], ["s", "v"]]]],
     # the same large payload twice in one value (shared vs distinct equal objects must hash alike)
     ["L", [["Z", "bytes", 1 << 20, 7], ["Z", "bytes", 1 << 20, 7]]],
     ["T", [["Z", "zeros", (1 << 20) + 17, 0], ["i", "1"], ["Z", "zeros", (1 << 20) + 17, 0]]],
@@ -89,6 +95,8 @@ def universe(tier, seed):
         r = rng.random()
         if r < 0.06:
             s = big_value(rng)
+        elif r < 0.09:
+            s = partial_chain(rng)
         elif r < 0.12:
             # a pair of values differing only in the type of one leaf of an item that also occurs (equal under ==)
             # in another container of the same value: anything remembered per item by equality confuses the two
@@ -149,6 +157,31 @@ def twin_values(rng):
         return [holder, [c1, c2]]
 
     return whole(a, b), whole(a, a)
+
+
+def partial_chain(rng):
+    """a set / frozenset / dict keyed by tuples forming a chain of comparable neighbours in which two members that are not
+    neighbours cannot be compared: X == E across types, E < G, X and G raise TypeError; padded with members comparable
+    with every other one, in some cases beyond a hundred members"""
+    X, E, G = rng.choice([(["c", "1.0", "0.0"], ["i", "1"], ["i", "2"]), (["c", "1.0", "0.0"], ["f", "1.0"], ["f", "1.5"]), (["c", "0.0", "0.0"], ["i", "0"], ["i", "7"]),
+                          (["c", "1.0", "0.0"], ["b", 1], ["i", "3"]), (["c", "2.0", "0.0"], ["i", "2"], ["f", "2.5"])])
+    depth = rng.choice([0, 0, 1])
+
+    def wrap(x, tail):
+        t = ["T", [x] + tail]
+        return ["T", [t, ["i", "0"]]] if depth else t
+
+    members = [wrap(X, []), wrap(E, [rng.choice([["i", "0"], ["n"], ["s", "a"]])]), wrap(G, rng.choice([[], [["s", "z"]]]))]
+    pad = rng.choice([0, 0, 1, 3, 30, 97, 98, 140, 300])
+    for j in range(pad):
+        members.append(wrap(["i", str(100 + j)], [rng.choice([["i", str(j)], ["s", "p%d" % j]])]))
+    if rng.random() < 0.3 and not depth:
+        members.insert(0, ["T", []])
+    kind = rng.choice(["S", "F", "D", "D"])
+    if kind == "D":
+        return ["D", [[m, ["i", str(rng.randrange(3))]] for m in members]]
+    spec = [kind, members]
+    return spec if rng.random() < 0.6 or kind == "S" else ["L", [spec, ["D", [[spec, ["i", "1"]]]]]]
 
 
 def big_value(rng):
@@ -251,6 +284,10 @@ def run_case(case, ctx):
                     bad = ("insertion-order", alg)
                 elif len({r[alg] for r in rows}) > 1:
                     bad = ("across-processes", alg)
+            for other in ("md5_spec", "md5_rev"):
+                if any(r["md5"] != r[other] for r in rows):
+                    bad = ("insertion-order", "md5")
+                    rows = [dict(r, md5_b=r[other]) for r in rows]
             if any(r["md5"] != r["md5_again"] for r in rows):
                 bad = ("same-object-twice", "md5")
             if any(r["md5"] != r["md5_shared_strings"] for r in rows):
